@@ -8,17 +8,20 @@ Model-level statements go through `DMat.toMatrix`, i.e. they are about the very 
 `drivers/C07.lean` runs (`posteriorCov?`, `reduction?`, `marginalCov`, `variationalCov`, `psdCert?`,
 `negWitness?`, `Clamp.run Gen.C07.varianceClamp`, `NExpr.eval Gen.C07.greaterThanTransform`).
 
-PROVED for all sizes / inputs / hyperparameters: RBF, cosine (d = 1), periodic, spectral mixture, linear, constant,
-polynomial, index, multitask / LCM (Kronecker), scale, sums, products.
+PROVED for all sizes / inputs / hyperparameters: RBF (also ARD), RQ (also ARD), Matérn-½ in input dimension one,
+cosine (d = 1), periodic, spectral mixture, linear, constant, polynomial, index, multitask / LCM (Kronecker),
+cylindrical (given a PSD radial factor), scale, sums, products.
 
-NOT PROVED (observed only, see `gram_psd_partial` at the end): positive definiteness of the Matérn (ν = ½, 3/2, 5/2),
-RQ, piecewise-polynomial and Hamming-IMQ covariance *functions*, of the cylindrical kernel's radial factor when its
-base kernel is one of those, and of the derivative kernels (RBFKernelGrad, RBFKernelGradGrad, Matern52KernelGrad,
-PolynomialKernelGrad).  That is Bochner / Schoenberg-level harmonic analysis (resp. differentiation of PSD kernels)
-which Mathlib does not provide.
+NOT PROVED (observed only, see `gram_psd_partial` at the end): positive definiteness of the Matérn covariance
+*functions* for ν = ½ in dimension d > 1 and for ν = 3/2, 5/2 in any dimension, of the piecewise-polynomial and
+Hamming-IMQ functions, of the cylindrical kernel's radial factor when its base kernel is one of those, and of the
+derivative kernels (RBFKernelGrad, RBFKernelGradGrad, Matern52KernelGrad, PolynomialKernelGrad).  That is Bochner /
+Schoenberg-level harmonic analysis (resp. differentiation of PSD kernels) which Mathlib does not provide.
 -/
 import GPVerif.Bridge.PSD
 import GPVerif.Bridge.RBF
+import GPVerif.Bridge.RQ
+import GPVerif.Bridge.Matern12
 
 open Matrix
 open scoped Kronecker
@@ -255,6 +258,58 @@ theorem gram_spectral_mixture_psd {d q : Type*} [Fintype d] [Fintype q] (X : Mat
         Real.cos (2 * Real.pi * μ a k * (X i k - X j k)) : Matrix ι ι ℝ))
     (fun k _ => spectral_mixture_factor_gram_psd (fun i => X i k) (hv a k) (μ a k))
 
+/-- **scale mixtures**: if `exp(−s·D)` (entrywise) is PSD for every `s ≥ 0`, then `(1 + D)^{−α}` is PSD, `α > 0`
+(`Γ(α)(1+u)^{−α} = ∫₀^∞ t^{α−1} e^{−(1+u)t} dt`; the quadratic form is an integral of non-negative quadratic forms). -/
+theorem gram_scale_mixture_psd {D : Matrix ι ι ℝ} (hD0 : ∀ i j, 0 ≤ D i j) (hsym : ∀ i j, D i j = D j i)
+    (hD : ∀ s : ℝ, 0 ≤ s → (of fun i j => Real.exp (-s * D i j) : Matrix ι ι ℝ).PosSemidef)
+    {α : ℝ} (hα : 0 < α) :
+    (of fun i j => (1 + D i j) ^ (-α) : Matrix ι ι ℝ).PosSemidef := rq_gram_psd_of_dist hD0 hsym hD hα
+
+/-- **`RQKernel`**: `(1 + ‖x_i − x_j‖² / (2 α ℓ²))^{−α}`, `α > 0`, every n, every input dimension, every lengthscale,
+duplicates included (a Gamma scale mixture of RBF kernels). -/
+theorem gram_rq_psd {d : Type*} [Fintype d] (X : Matrix ι d ℝ) (ℓ : ℝ) {α : ℝ} (hα : 0 < α) :
+    (of fun i j => (1 + (∑ k, (X i k - X j k) ^ 2) / (2 * α * ℓ ^ 2)) ^ (-α) : Matrix ι ι ℝ).PosSemidef :=
+  rq_gram_psd X ℓ hα
+
+/-- RBF with ARD lengthscales `ℓ_k`. -/
+theorem gram_rbf_ard_psd {d : Type*} [Fintype d] (X : Matrix ι d ℝ) (ℓ : d → ℝ) :
+    (of fun i j => Real.exp (-(∑ k, ((X i k - X j k) / ℓ k) ^ 2) / 2) : Matrix ι ι ℝ).PosSemidef := by
+  have h := rbf_gram_psd (of fun i k => X i k / ℓ k : Matrix ι d ℝ) 1
+  have e : (of fun i j => Real.exp (-(∑ k, ((X i k - X j k) / ℓ k) ^ 2) / 2) : Matrix ι ι ℝ) =
+      of fun i j => Real.exp (-(∑ k, ((of fun i k => X i k / ℓ k : Matrix ι d ℝ) i k -
+        (of fun i k => X i k / ℓ k : Matrix ι d ℝ) j k) ^ 2) / (2 * (1 : ℝ) ^ 2)) := by
+    ext i j
+    simp only [of_apply, one_pow, mul_one, sub_div]
+  rw [e]; exact h
+
+/-- RQ with ARD lengthscales `ℓ_k`. -/
+theorem gram_rq_ard_psd {d : Type*} [Fintype d] (X : Matrix ι d ℝ) (ℓ : d → ℝ) {α : ℝ} (hα : 0 < α) :
+    (of fun i j => (1 + (∑ k, ((X i k - X j k) / ℓ k) ^ 2) / (2 * α)) ^ (-α) : Matrix ι ι ℝ).PosSemidef := by
+  have h := rq_gram_psd (of fun i k => X i k / ℓ k : Matrix ι d ℝ) 1 hα
+  have e : (of fun i j => (1 + (∑ k, ((X i k - X j k) / ℓ k) ^ 2) / (2 * α)) ^ (-α) : Matrix ι ι ℝ) =
+      of fun i j => (1 + (∑ k, ((of fun i k => X i k / ℓ k : Matrix ι d ℝ) i k -
+        (of fun i k => X i k / ℓ k : Matrix ι d ℝ) j k) ^ 2) / (2 * α * (1 : ℝ) ^ 2)) ^ (-α) := by
+    ext i j
+    simp only [of_apply, one_pow, mul_one, sub_div]
+  rw [e]; exact h
+
+/-- `exp(min(u_i, u_j))` (`e^{min(u,w)} = ∫ 1[t≤u] 1[t≤w] e^t dt`). -/
+theorem gram_exp_min_psd (u : ι → ℝ) :
+    (of fun i j => Real.exp (min (u i) (u j)) : Matrix ι ι ℝ).PosSemidef := exp_min_gram_psd u
+
+/-- **`MaternKernel(nu=0.5)` in input dimension one**: `exp(−|x_i − x_j| / ℓ)`, `ℓ > 0`, every finite set of points
+(unsorted, duplicates allowed): `e^{−|a−b|} = e^{−a} e^{−b} e^{2 min(a,b)}`. -/
+theorem gram_matern12_1d_psd (x : ι → ℝ) {ℓ : ℝ} (hℓ : 0 < ℓ) :
+    (of fun i j => Real.exp (-|x i - x j| / ℓ) : Matrix ι ι ℝ).PosSemidef := matern12_1d_gram_psd x hℓ
+
+/-- **`CylindricalKernel`**: (radial Gram matrix) ⊙ `Σ_{p<P} w_p ⟨a_i, a_j⟩^p`, angular weights `w_p ≥ 0`, for any PSD
+radial factor (RBF, RQ, Matérn-½ on the one-dimensional radii `kuma(r_i)` are PSD by the theorems above). -/
+theorem gram_cylindrical_psd {d : Type*} [Fintype d] {R : Matrix ι ι ℝ} (hR : R.PosSemidef) (A : Matrix ι d ℝ)
+    (P : ℕ) (w : ℕ → ℝ) (hw : ∀ p, 0 ≤ w p) :
+    (R ⊙ ∑ p ∈ Finset.range P, w p • (of fun i j => (A * Aᵀ) i j ^ p : Matrix ι ι ℝ)).PosSemidef := by
+  have hlin : (A * Aᵀ).PosSemidef := by simpa using gram_linear_psd A zero_le_one
+  exact hR.hadamard (posSemidef_sum _ fun p _ => (hpow_psd hlin p).smul (hw p))
+
 /-- entrywise product of finitely many PSD matrices (`ProductStructureKernel`, products of several factors). -/
 theorem gram_finite_product_psd {q : Type*} (s : Finset q) (Kf : q → Matrix ι ι ℝ) (h : ∀ a ∈ s, (Kf a).PosSemidef) :
     (of fun i j => ∏ a ∈ s, Kf a i j : Matrix ι ι ℝ).PosSemidef := hprod_psd s Kf h
@@ -463,15 +518,16 @@ end model
 
 Full strength (NOT proved — Bochner / Schoenberg):
 
-  theorem gram_psd (k ∈ {Matérn ν∈{½,3/2,5/2}, RQ, piecewise polynomial, Hamming-IMQ (one-hot), cylindrical (‖x‖ ≤ 1)
-      with such a radial base kernel, RBFKernelGrad, RBFKernelGradGrad, Matern52KernelGrad, PolynomialKernelGrad})
-      (x : Fin n → domain k) : (of fun i j => k (x i) (x j)).PosSemidef
+  theorem gram_psd (k ∈ {Matérn ν = ½ (d > 1), Matérn ν ∈ {3/2, 5/2}, piecewise polynomial, Hamming-IMQ (one-hot),
+      cylindrical (‖x‖ ≤ 1) with such a radial base kernel, RBFKernelGrad, RBFKernelGradGrad, Matern52KernelGrad,
+      PolynomialKernelGrad}) (x : Fin n → domain k) : (of fun i j => k (x i) (x j)).PosSemidef
 
-(RBF, cosine d = 1, periodic and spectral mixture, listed as unprovable in DESIGN.md, ARE proved above:
-`gram_rbf_psd`, `gram_cosine_psd`, `gram_periodic_psd`, `gram_spectral_mixture_psd`.)
+(RBF, RQ, cosine d = 1, periodic and spectral mixture, listed as unprovable in DESIGN.md, ARE proved above:
+`gram_rbf_psd`, `gram_rq_psd`, `gram_cosine_psd`, `gram_periodic_psd`, `gram_spectral_mixture_psd`; Matérn-½ in
+dimension one: `gram_matern12_1d_psd`.)
 
 Proved weakening: the order-2 necessary conditions for a stationary kernel `k(x,y) = f(dist x y)` with
-`|f r| ≤ f 0` (which Matérn, RQ, piecewise polynomial and Hamming-IMQ satisfy): the Gram matrix is symmetric, has
+`|f r| ≤ f 0` (which Matérn, piecewise polynomial and Hamming-IMQ satisfy): the Gram matrix is symmetric, has
 constant non-negative diagonal `f 0`, and every 2×2 principal submatrix is PSD.
 The harness observes the full statement numerically and certifies it exactly per instance (`psdCert?`). -/
 
